@@ -48,11 +48,12 @@ EXTRA = [("FISTA", "Quadratic", "L1", "denseF"), ("FISTA", "Quadratic", "L1", "c
 
 
 def domains(tier):
-    D = R.domains(tier) + EXTRA
+    D = R.domains(tier) + EXTRA + [("GroupBCD", "QuadraticGroup", "WeightedGroupL2-0", "denseF"), ("GroupBCD", "QuadraticGroup", "WeightedGroupL2-0", "csc"),
+                                   ("GroupProxNewton", "LogisticGroup", "WeightedGroupL2-0", "denseF")]
     if tier == "quick":
         keep, seen = [], set()
         for d in D:
-            key = (d[0], d[1], d[3]) if d[0] not in ("AndersonCD", "GramCD") else d
+            key = (d[0], d[1], d[3]) if (d[0] not in ("AndersonCD", "GramCD") and not d[2].endswith("-0")) else d
             if key in seen:
                 continue
             seen.add(key)
